@@ -60,6 +60,9 @@ def run(tier):
         rep.notes.append("%d violations in total, first 25 of each (clause, cond) class kept" % res["nviol"])
     # 3. binding self-test
     _selftest_guarded(rep, selftest, recs, wd)
+    # specification growth hosted here (identity regeneration trigger and rejection history): conformance, informational (MODEL-DRIFT, never a VIOLATION)
+    import growth_regen
+    growth_regen.run(rep, wd, big)
     return rep.finish(
         rule="case = one verify presentation (record field tokens, signature token, direct verdict, cached verdict) or one "
              "constructor call (name length, endpoint count, lifetime, accepted?); distinct by content; every verdict is "
